@@ -1128,8 +1128,16 @@ def trace_to_replay(trace):
                 if e[0] == "ProcessResults":
                     completed += [t for t, r in e[2] if r != "-"]
             hint1 = ([pid] if pid is not None else []) + q_after + allp
+            def first_occ(l):        # the model de-duplicates priority lists keeping the LAST occurrence
+                seen, out = set(), []
+                for x in l:
+                    if x not in seen:
+                        seen.add(x)
+                        out.append(x)
+                return out
             steps.append("(w %d %s %s %s (expired %s) (awaiters %s) (completed %s))" % (
-                wi, k, pid if pid is not None else "-", did, " ".join(hint1), " ".join(q_after + allp), " ".join(completed + allp)))
+                wi, k, pid if pid is not None else "-", did, " ".join(first_occ(hint1)), " ".join(first_occ(q_after + allp)),
+                " ".join(first_occ(completed + allp))))
         prev_raw = a["state"]
         expected.append(_dump_state(a["state"], intern))
     n_actions = sum(1 for e in expected if e is not None)
